@@ -172,9 +172,13 @@ def run(rep, tier):
     rep.analysed(ow)
     g2 = CFG(ow)
     rec = [n for n in ow.walk() if n.get("k") == "mcall" and n.get("callee") == OH + "OverwriteDefaultsWithUserInput"]
-    tagloops = [n for n in ow.walk() if n.get("k") == "rangefor" and nows(show(n["range"])) == "tags"]
-    adds = [n for n in ow.walk() if n.get("k") == "mcall" and (n.get("callee") or "").endswith("Property::add") and show(n["obj"]) == "defaults"
-            and any(a["id"] == (tagloops[0]["id"] if tagloops else -1) for a in ow.ancestors(n))]
+    un_, dn_ = [p_["name"] for p_ in ow.j["params"][:2]]
+    # the loop over the distinct tags of a list: the range-for that encloses both an add to the defaults and a recursive merge
+    alladds = [n for n in ow.walk() if n.get("k") == "mcall" and (n.get("callee") or "").endswith("Property::add") and show(n["obj"]) == dn_]
+    tagloops = [n for n in ow.walk() if n.get("k") == "rangefor" and any(any(a["id"] == n["id"] for a in ow.ancestors(ad_)) for ad_ in alladds)
+                and any(any(a["id"] == n["id"] for a in ow.ancestors(r_)) for r_ in rec)]
+    tagloops = tagloops[:1]
+    adds = [n for n in alladds if any(a["id"] == (tagloops[0]["id"] if tagloops else -1) for a in ow.ancestors(n))]
     ok, why = False, "list branch not recognised"
     if tagloops and adds and rec:
         # the loop head block of the tag loop: block whose terminator is this CXXForRangeStmt
@@ -184,9 +188,9 @@ def run(rep, tier):
         for ad in adds:
             src = unwrap(ad["args"][0])
             # resolve the added value to its defining read of `defaults`
-            reads = [x for x in walk(src) if x.get("k") == "mcall" and (x.get("callee") or "").endswith(("Property::get", "Property::Select")) and show(x["obj"]) == "defaults"]
+            reads = [x for x in walk(src) if x.get("k") == "mcall" and (x.get("callee") or "").endswith(("Property::get", "Property::Select")) and show(x["obj"]) == dn_]
             if src.get("k") == "ref" and src.get("decl") in ow.decls and ow.decls[src["decl"]].get("init") is not None:
-                reads += [x for x in walk(ow.decls[src["decl"]]["init"]) if x.get("k") == "mcall" and (x.get("callee") or "").endswith(("Property::get", "Property::Select")) and show(x["obj"]) == "defaults"]
+                reads += [x for x in walk(ow.decls[src["decl"]]["init"]) if x.get("k") == "mcall" and (x.get("callee") or "").endswith(("Property::get", "Property::Select")) and show(x["obj"]) == dn_]
             if not reads:
                 ok, why = False, "the element added for extra user entries (%s) is not read from the defaults" % show(src)
                 break
@@ -197,12 +201,14 @@ def run(rep, tier):
                         ok, why = False, ("the default element copied for additional user entries is read from `defaults` after an earlier element of the same "
                                           "tag was already merged with user input: values (and 'injected' marks) of list element k leak into element k+1")
     rep.check(ok, "R11.6", "list-pristine-copy", "extra list elements are copies of the untouched default element", "OverwriteDefaultsWithUserInput: " + why, ow.loc(), sample=True)
-    conds = [nows(show(n["cond"])) for n in ow.walk() if n.get("k") == "if"]
-    rep.check(any(c.startswith("!defaults.hasAttribute(") and '"list"' in c for c in conds) and any('"unchecked"' in c for c in conds), "R11.2", "overwrite-cases",
-              "three cases: normal, list, unchecked", "OverwriteDefaultsWithUserInput case analysis is %s" % conds, ow.loc())
-    val = [n for n in ow.walk() if n.get("k") == "opcall" and n.get("op") == "=" and nows(show(n["args"][0])) == "defaults.value()"]
-    rep.check(len(val) == 1 and nows(show(val[0]["args"][1])) == "user_input.value()", "R11.2", "overwrite-value", "user value replaces the default value",
-              "OverwriteDefaultsWithUserInput assigns %s" % (show(val[0]["args"][1]) if val else "?"), ow.loc())
+    fow = Fold(ow, inline=False).run()
+    vst = [e for e in fow.events if e["kind"] == "store" and e["target"].replace(" ", "") == dn_ + ".value()"]
+    gtxt = [" ".join(guard_strs(fow, e["guards"])) for e in vst]
+    rep.check(len(vst) == 1 and str(vst[0]["value"]) == "value(%s)" % un_ and re.search(r'!\(?hasAttribute\(%s, (ctor\()?"list"' % re.escape(dn_), gtxt[0]) is not None, "R11.2", "overwrite-value",
+              "user value replaces the default value (non-list nodes)", "OverwriteDefaultsWithUserInput assigns %s under %s" % ([str(e["value"]) for e in vst], gtxt), ow.loc())
+    lits = {x["v"] for n in ow.walk() if n.get("k") == "if" for x in walk(n["cond"]) if x.get("k") == "str"}
+    rep.check({"list", "unchecked"} <= lits, "R11.2", "overwrite-cases",
+              "three cases: normal, list, unchecked", "OverwriteDefaultsWithUserInput does not distinguish the list and unchecked cases (attributes tested: %s)" % sorted(lits), ow.loc())
 
     # ---------------------------------------------------------------- R11.3 DATA
     iv = F.one(OH + "IsValidOption")
